@@ -9,7 +9,11 @@ state is afterwards.  In the tie the real library's answers are fed to them
 (Driver/Cmds/CratesV2Spec.lean); here the Model's answers are, by the functions
 `judgeF`, `judgeM`, `ordStep` below — the theorems of Properties/C07V2, C08V2, C09
 say that for every history the judges never object and the abstract state they
-track is exactly the abstraction (`absF`, `absM`, `Rep`) of the Model state.
+track is exactly the abstraction (`absF`, `absM`, `ChInv`) of the Model state.
+
+The judges see NOTHING of the Model but its answers: every guard and every prescription
+below is computed from the Spec state (the forest `f`, the membership state, the ordered
+lists with the payload of every entry) and the arguments of the call.
 -/
 import Proofs.ChainCore
 import EngineModel.Db.V2Crates
@@ -37,8 +41,13 @@ def absF (d : Db) : Forest.Forest := ⟨(cores d.pl).map crateOf⟩
 
 def pairOf (c : Int × Int × Ent) : Int × Int := (c.2.1, c.2.2.track)
 
-/-- Playlist / Track / PlaylistEntity read as a membership state: live crates, live tracks, (list, track) per entity row. -/
-def absM (d : Db) : Members.State := ⟨ids d.pl, d.tracks, (cores d.pe).map pairOf⟩
+/-- Entries of the library's own database (uuid tag 0): the memberships of its tracks.  Entries of other
+databases (a playlist may reference tracks on another drive) are nobody's membership here. -/
+def own (c : Int × Int × Ent) : Bool := c.2.2.uuid == 0
+
+/-- Playlist / Track / PlaylistEntity read as a membership state: live crates, live tracks, (list, track) per
+entity row of this database. -/
+def absM (d : Db) : Members.State := ⟨ids d.pl, d.tracks, ((cores d.pe).filter own).map pairOf⟩
 
 /-! ### outcomes -/
 
@@ -104,14 +113,14 @@ def specRunF : Db → Forest.Forest → List Op → Option Forest.Forest
 
 /-! ### C08: the membership judge -/
 
-/-- The membership-level reading of an operation, given the state before and the result
-(the same translation as the oracle of the tie performs on the real library's answers). -/
-def membersOps (d : Db) (op : Op) (res : Res Out) : List Members.Op :=
+/-- The membership-level reading of an operation, from the Spec forest before the call, the call and its
+result (the same translation as the oracle of the tie performs on the real library's answers). -/
+def membersOps (f : Forest.Forest) (op : Op) (res : Res Out) : List Members.Op :=
   match op with
   | .createRoot _ | .createRootAfter _ _ | .createSub _ _ | .createSubAfter _ _ _ =>
     if outcome res == some true then [.newCrate (newIdOf res)] else []
   | .removeCrate c =>
-    if outcome res == some true && plExists d c then [.dropCrates (c :: descendantIds d.pl c)] else []
+    if outcome res == some true && f.live c then [.dropCrates (c :: f.descendants c)] else []
   | .createTrack => [.newTrack (newIdOf res)]
   | .removeTrack t => [.dropTrack t]
   | .addTrack c t => [.add c t]
@@ -124,88 +133,118 @@ def judgeM1 (s : Members.State) (mop : Members.Op) (ok : Bool) : Option Members.
   | .newTrack t => if s.tracks.contains t then none else (Members.step s mop).next s ok
   | _ => (Members.step s mop).next s ok
 
-def judgeM (s : Members.State) (d : Db) (op : Op) (res : Res Out) : Option Members.State :=
+def judgeM (s : Members.State) (f : Forest.Forest) (op : Op) (res : Res Out) : Option Members.State :=
   match outcome res with
   | none => none
-  | some ok => (membersOps d op res).foldlM (fun s mop => judgeM1 s mop ok) s
+  | some ok => (membersOps f op res).foldlM (fun s mop => judgeM1 s mop ok) s
 
 /-- The crate / track API (what C07, C08 and C11 quantify over); the `pe*` operations are the
-table-level playlist_entity_table interface (C09 only). -/
+table-level playlist_entity_table interface. -/
 def apiOp : Op → Bool
   | .peAddBack _ _ _ _ | .peRemove _ _ | .peClear _ => false
   | _ => true
 
-def specRunM : Db → Members.State → List Op → Option Members.State
-  | _, s, [] => some s
-  | d, s, op :: ops =>
-    match judgeM s d op (step d op).2 with
-    | none => none
-    | some s' => specRunM (step d op).1 s' ops
+/-- Histories C08 is stated for: the crate / track API, interleaved with entries of OTHER databases
+(uuid tag ≠ 0, positive track id) being added to any list at table level — what other software sharing
+the library does.  (Table-level removal, or table-level entries of the own database for lists / tracks
+that do not exist, are outside what "added to a crate" means.) -/
+def memOp : Op → Bool
+  | .peAddBack _ t u _ => decide (u ≠ 0) && decide (0 < t)
+  | .peRemove _ _ | .peClear _ => false
+  | _ => true
+
+def specRunM : Db → Forest.Forest → Members.State → List Op → Option (Forest.Forest × Members.State)
+  | _, f, s, [] => some (f, s)
+  | d, f, s, op :: ops =>
+    match judgeF f op (step d op).2, judgeM s f op (step d op).2 with
+    | some f', some s' => specRunM (step d op).1 f' s' ops
+    | _, _ => none
 
 /-! ### C09: the ordered lists -/
 
-/-- One duplicate-free ordered list per key: siblings per parent (0 = the roots), entries per playlist. -/
+/-- One duplicate-free ordered list per key: siblings per parent (0 = the roots); entries per playlist,
+each with its payload (track id, database). -/
 structure Ord where
   kids : Int → List Int
-  ents : Int → List Int
+  ents : Int → List (Int × Ent)
 
 def Ord.empty : Ord := ⟨fun _ => [], fun _ => []⟩
+
+/-- The entity ids of the entries of a list, in order. -/
+def Ord.entIds (S : Ord) : Int → List Int := fun l => (S.ents l).map (·.1)
+
+/-- The entry of list `l` for track `t` of database `u`, looked up in the Spec's own listing. -/
+def Ord.find (S : Ord) (l t u : Int) : Option (Int × Ent) :=
+  (S.ents l).find? (fun p => p.2.track == t && p.2.uuid == u)
+
+/-- The entry with entity id `e` leaves a listing, the rest stays in order. -/
+def dropEnt (L : List (Int × Ent)) (e : Int) : List (Int × Ent) := L.filter (fun p => p.1 != e)
+
+def setKeyE (E : Int → List (Int × Ent)) (k : Int) (L : List (Int × Ent)) : Int → List (Int × Ent) :=
+  fun k' => if k' = k then L else E k'
 
 /-- The listings of the keys `ks` are dropped. -/
 def clearKeys (A : Int → List Int) (ks : List Int) : Int → List Int :=
   fun k => if ks.contains k then [] else A k
 
+def clearKeysE (E : Int → List (Int × Ent)) (ks : List Int) : Int → List (Int × Ent) :=
+  fun k => if ks.contains k then [] else E k
+
 /-- `c` leaves the list of `ok` and is appended to the list of `nk`. -/
 def moveKid (A : Int → List Int) (ok nk c : Int) : Int → List Int :=
   setKey (setKey A ok ((A ok).erase c)) nk (setKey A ok ((A ok).erase c) nk ++ [c])
 
-/-- One operation on the ordered lists, using nothing but the list operations of Spec/Ordered
-(`insertAfter`, append, `erase`, drop), driven by the Model's answer. -/
-def ordOk (S : Ord) (d : Db) (op : Op) (out : Out) : Ord :=
+/-- One successful operation on the ordered lists, using nothing but the list operations of Spec/Ordered
+(`insertAfter`, append, `erase` / drop of one entry, drop of a listing), the Spec forest `f` before the call
+(who is whose parent, who is live, the subtree of a crate) and the answer of the call (`out`: the new id). -/
+def ordOk (S : Ord) (f : Forest.Forest) (op : Op) (out : Out) : Ord :=
     match op, out with
     | .createRoot _, some i => { S with kids := setKey S.kids 0 (S.kids 0 ++ [i]) }
     | .createRootAfter _ a, some i => { S with kids := setKey S.kids 0 (Ordered.insertAfter a i (S.kids 0)) }
     | .createSub p _, some i => { S with kids := setKey S.kids p (S.kids p ++ [i]) }
     | .createSubAfter p _ a, some i => { S with kids := setKey S.kids p (Ordered.insertAfter a i (S.kids p)) }
     | .setParent c p, _ =>
-      match get d.pl c with
-      | some row =>
-        if row.key != keyOf p then { S with kids := moveKid S.kids row.key (keyOf p) c }
-        else S
-      | none => S
+      if f.live c && keyOf (f.parentOf c) != keyOf p then { S with kids := moveKid S.kids (keyOf (f.parentOf c)) (keyOf p) c }
+      else S
     | .removeCrate c, _ =>
-      match get d.pl c with
-      | some row =>
-        let gone := c :: descendantIds d.pl c
-        { kids := clearKeys (setKey S.kids row.key ((S.kids row.key).erase c)) gone,
-          ents := clearKeys S.ents gone }
-      | none => S
+      if f.live c then
+        let gone := c :: f.descendants c
+        { kids := clearKeys (setKey S.kids (keyOf (f.parentOf c)) ((S.kids (keyOf (f.parentOf c))).erase c)) gone,
+          ents := clearKeysE S.ents gone }
+      else S
     | .removeTrack t, _ =>
       { S with ents := fun l =>
-          if (ids d.pl).contains l then
-            match peGet d l t with
-            | some e => (S.ents l).erase e.id
+          if f.ids.contains l then
+            match S.find l t 0 with
+            | some p => dropEnt (S.ents l) p.1
             | none => S.ents l
           else S.ents l }
-    | .addTrack c t, some e => if (peFind d c t 0).isNone then { S with ents := setKey S.ents c (S.ents c ++ [e]) } else S
-    | .peAddBack l t u _, some e => if (peFind d l t u).isNone then { S with ents := setKey S.ents l (S.ents l ++ [e]) } else S
+    | .addTrack c t, some e =>
+      if (S.find c t 0).isNone then { S with ents := setKeyE S.ents c (S.ents c ++ [(e, ⟨t, 0⟩)]) } else S
+    | .peAddBack l t u _, some e =>
+      if (S.find l t u).isNone then { S with ents := setKeyE S.ents l (S.ents l ++ [(e, ⟨t, u⟩)]) } else S
     | .removeTrackFrom c t, _ =>
-      match peGet d c t with
-      | some e => { S with ents := setKey S.ents c ((S.ents c).erase e.id) }
+      match S.find c t 0 with
+      | some p => { S with ents := setKeyE S.ents c (dropEnt (S.ents c) p.1) }
       | none => S
-    | .clearTracks c, _ => { S with ents := setKey S.ents c [] }
-    | .peRemove l e, _ => { S with ents := setKey S.ents l ((S.ents l).erase e) }
-    | .peClear l, _ => { S with ents := setKey S.ents l [] }
+    | .clearTracks c, _ => { S with ents := setKeyE S.ents c [] }
+    | .peRemove l e, _ => { S with ents := setKeyE S.ents l (dropEnt (S.ents l) e) }
+    | .peClear l, _ => { S with ents := setKeyE S.ents l [] }
     | _, _ => S
 
-def ordStep (S : Ord) (d : Db) (op : Op) : Ord :=
-  match (step d op).2 with
-  | .ok out => ordOk S d op out
+/-- … driven by the result of the call: a call that threw changes nothing. -/
+def ordNext (S : Ord) (f : Forest.Forest) (op : Op) (res : Res Out) : Ord :=
+  match res with
+  | .ok out => ordOk S f op out
   | _ => S
 
-def ordRun : Db → Ord → List Op → Ord
-  | _, S, [] => S
-  | d, S, op :: ops => ordRun (step d op).1 (ordStep S d op) ops
+/-- The Spec forest and the Spec lists after a Model history, driven by the Model's answers only. -/
+def specRunO : Db → Forest.Forest → Ord → List Op → Option (Forest.Forest × Ord)
+  | _, f, S, [] => some (f, S)
+  | d, f, S, op :: ops =>
+    match judgeF f op (step d op).2 with
+    | none => none
+    | some f' => specRunO (step d op).1 f' (ordNext S f op (step d op).2) ops
 
 /-- Table-level `add_back` with a non-positive track id is outside the domain of C09's theorem
 (recorded finding: the schema's delete trigger is declared `WHEN OLD.trackId > 0`). -/
@@ -213,58 +252,55 @@ def okOp : Op → Bool
   | .peAddBack _ t _ _ => decide (0 < t)
   | _ => true
 
-/-- What the property prescribes for the sibling listing of key `k` across one operation
-(same table as the oracle of the tie). -/
-def kidsChangeOk (d : Db) (op : Op) (out : Out) (k : Int) : Ordered.Change :=
+/-- What the property prescribes for the sibling listing of key `k` across one successful operation
+(same table as the oracle of the tie): from the Spec forest before the call and the call. -/
+def kidsChangeOk (f : Forest.Forest) (op : Op) (out : Out) (k : Int) : Ordered.Change :=
     match op, out with
-    | .createRoot _, some i => if k = 0 then .inserted i else .same
+    | .createRoot _, some i => if k = 0 then .appended i else .same
     | .createRootAfter _ a, some i => if k = 0 then .insertedAfter a i else .same
-    | .createSub p _, some i => if k = p then .inserted i else .same
+    | .createSub p _, some i => if k = p then .appended i else .same
     | .createSubAfter p _ a, some i => if k = p then .insertedAfter a i else .same
     | .setParent c p, _ =>
-      match get d.pl c with
-      | some row =>
-        if row.key != keyOf p then
-          (if k = keyOf p then .inserted c else if k = row.key then .erased c else .same)
-        else .same
-      | none => .same
+      if f.live c && keyOf (f.parentOf c) != keyOf p then
+        (if k = keyOf p then .appended c else if k = keyOf (f.parentOf c) then .erased c else .same)
+      else .same
     | .removeCrate c, _ =>
-      match get d.pl c with
-      | some row =>
-        if (c :: descendantIds d.pl c).contains k then .dropped
-        else if k = row.key then .erased c else .same
-      | none => .same
+      if f.live c then
+        (if (c :: f.descendants c).contains k then .dropped
+         else if k = keyOf (f.parentOf c) then .erased c else .same)
+      else .same
     | _, _ => .same
 
-def kidsChange (d : Db) (op : Op) (k : Int) : Ordered.Change :=
-  match (step d op).2 with
-  | .ok out => kidsChangeOk d op out k
+def kidsChange (f : Forest.Forest) (op : Op) (res : Res Out) (k : Int) : Ordered.Change :=
+  match res with
+  | .ok out => kidsChangeOk f op out k
   | _ => .same
 
-/-- … and for the entry listing (entity row ids) of playlist `l`. -/
-def entsChangeOk (d : Db) (op : Op) (out : Out) (l : Int) : Ordered.Change :=
+/-- … and for the entry listing (entity row ids) of playlist `l`: from the Spec forest and the Spec lists
+before the call, and the call. -/
+def entsChangeOk (S : Ord) (f : Forest.Forest) (op : Op) (out : Out) (l : Int) : Ordered.Change :=
     match op, out with
-    | .removeCrate c, _ => if plExists d c && (c :: descendantIds d.pl c).contains l then .dropped else .same
+    | .removeCrate c, _ => if f.live c && (c :: f.descendants c).contains l then .dropped else .same
     | .removeTrack t, _ =>
-      if (ids d.pl).contains l then
-        match peGet d l t with
-        | some e => .erased e.id
+      if f.ids.contains l then
+        match S.find l t 0 with
+        | some p => .erased p.1
         | none => .same
       else .same
-    | .addTrack c t, some e => if l = c && (peFind d c t 0).isNone then .appended e else .same
-    | .peAddBack c t u _, some e => if l = c && (peFind d c t u).isNone then .appended e else .same
+    | .addTrack c t, some e => if l = c && (S.find c t 0).isNone then .appended e else .same
+    | .peAddBack c t u _, some e => if l = c && (S.find c t u).isNone then .appended e else .same
     | .removeTrackFrom c t, _ =>
-      match peGet d c t with
-      | some e => if l = c then .erased e.id else .same
+      match S.find c t 0 with
+      | some p => if l = c then .erased p.1 else .same
       | none => .same
     | .clearTracks c, _ => if l = c then .dropped else .same
     | .peRemove c e, _ => if l = c then .erased e else .same
     | .peClear c, _ => if l = c then .dropped else .same
     | _, _ => .same
 
-def entsChange (d : Db) (op : Op) (l : Int) : Ordered.Change :=
-  match (step d op).2 with
-  | .ok out => entsChangeOk d op out l
+def entsChange (S : Ord) (f : Forest.Forest) (op : Op) (res : Res Out) (l : Int) : Ordered.Change :=
+  match res with
+  | .ok out => entsChangeOk S f op out l
   | _ => .same
 
 end EngineModel.Db.V2
